@@ -205,7 +205,9 @@ func runC08(c *Ctx) {
 	if fn := c.fn(pkgGraphql, "MarshalFloatContext"); fn != nil {
 		done := false
 		for _, cl := range an.WithClosures(fn) {
-			for _, call := range an.CallsIn(cl, func(_ ssa.CallInstruction, ci an.CalleeInfo) bool { return strings.HasPrefix(ci.FullName(), "fmt.Fprint") }) {
+			for _, call := range an.CallsIn(cl, func(_ ssa.CallInstruction, ci an.CalleeInfo) bool {
+				return strings.HasPrefix(ci.FullName(), "fmt.Fprint")
+			}) {
 				done = true
 				inf, nan := false, false
 				for _, f := range an.Facts(call) {
